@@ -43,12 +43,14 @@ int __real_nsync_wait_n (void *, void (*) (void *), void (*) (void *), nsync_tim
 #define nsync_wait_n __real_nsync_wait_n
 
 extern void (*vf_lockann_hook) (void *mu, int acquired, int write);
+extern int (*vf_victim_may_run_hook) (void);
+extern void (*vf_sem_sleep_hook) (int tid);
 void *vf_once_sync_base (void);
 size_t vf_once_sync_stride (void);
 void *vf_pool_mu_addr (void);
 
 #define MAXOBJ 16
-#define MAXOPS 64
+#define MAXOPS 200
 #define START_NS 1000000000000ll
 
 enum opc { OP_LOCK = 1, OP_UNLOCK, OP_RLOCK, OP_RUNLOCK, OP_TRYLOCK, OP_RTRYLOCK, OP_UNLOCK_IF, OP_RUNLOCK_IF,
@@ -82,6 +84,16 @@ static int once_runs[256], once_done[256];
 static int sleeps_in_lock[16]; static int in_lock_call[16];
 static int expect_stuck_ok;
 
+static int nfibers_total;
+/* C14: how often a fiber goes to sleep inside ONE nsync_mu_lock / nsync_mu_rlock call */
+static void sem_sleep (int tid) { if (tid >= 0 && tid < 16 && in_lock_call[tid]) { sleeps_in_lock[tid]++; } }
+/* adversarial scheduling: the victim (fiber 0) may run only while mu0 is held by somebody */
+static int victim_may_run (void) { uint32_t w = *(volatile uint32_t *) &mus[0]; return ((w & (MU_WLOCK | MU_RLOCK_FIELD)) != 0); }
+static void check_starved (int me, const char *api) {
+	if (sleeps_in_lock[me] > LONG_WAIT_THRESHOLD + nfibers_total + 6) {
+		vf_violation ("starved", "%s: the caller was sent back to sleep %d times in one call (more than LONG_WAIT_THRESHOLD + number of threads)", api, sleeps_in_lock[me]);
+	}
+}
 static int mu_index (void *mu) { int i; for (i = 0; i != nmu; i++) { if ((void *) &mus[i] == mu) { return (i); } } return (-1); }
 static void lockann (void *mu, int acquired, int write) {
 	int m = mu_index (mu);
@@ -177,8 +189,8 @@ static void run_prog (void *arg) {
 	for (i = 0; i != p->n; i++) {
 		struct op *o = &p->ops[i];
 		switch (o->code) {
-		case OP_LOCK: vf_log ("call nsync_mu_lock mu%d", o->a); in_lock_call[me] = 1; sleeps_in_lock[me] = 0; vf_api_enter (); nsync_mu_lock (&mus[o->a]); vf_api_leave (); in_lock_call[me] = 0; shadow_acq (o->a, 1); vf_log ("ret nsync_mu_lock -"); break;
-		case OP_RLOCK: vf_log ("call nsync_mu_rlock mu%d", o->a); in_lock_call[me] = 1; sleeps_in_lock[me] = 0; vf_api_enter (); nsync_mu_rlock (&mus[o->a]); vf_api_leave (); in_lock_call[me] = 0; shadow_acq (o->a, 0); vf_log ("ret nsync_mu_rlock -"); break;
+		case OP_LOCK: vf_log ("call nsync_mu_lock mu%d", o->a); in_lock_call[me] = 1; sleeps_in_lock[me] = 0; vf_api_enter (); nsync_mu_lock (&mus[o->a]); vf_api_leave (); in_lock_call[me] = 0; check_starved (me, "nsync_mu_lock"); shadow_acq (o->a, 1); vf_log ("ret nsync_mu_lock -"); break;
+		case OP_RLOCK: vf_log ("call nsync_mu_rlock mu%d", o->a); in_lock_call[me] = 1; sleeps_in_lock[me] = 0; vf_api_enter (); nsync_mu_rlock (&mus[o->a]); vf_api_leave (); in_lock_call[me] = 0; check_starved (me, "nsync_mu_rlock"); shadow_acq (o->a, 0); vf_log ("ret nsync_mu_rlock -"); break;
 		case OP_UNLOCK: vf_log ("call nsync_mu_unlock mu%d", o->a); shadow_rel (o->a, 1); vf_api_enter (); nsync_mu_unlock (&mus[o->a]); vf_api_leave (); vf_log ("ret nsync_mu_unlock -"); break;
 		case OP_UNLOCK_NW: vf_log ("call nsync_mu_unlock_without_wakeup mu%d", o->a); shadow_rel (o->a, 1); vf_api_enter (); nsync_mu_unlock_without_wakeup (&mus[o->a]); vf_api_leave (); vf_log ("ret nsync_mu_unlock_without_wakeup -"); break;
 		case OP_RUNLOCK: vf_log ("call nsync_mu_runlock mu%d", o->a); shadow_rel (o->a, 0); vf_api_enter (); nsync_mu_runlock (&mus[o->a]); vf_api_leave (); vf_log ("ret nsync_mu_runlock -"); break;
@@ -464,7 +476,7 @@ static int run_one (char **lines, int nlines, struct vf_config *cfg, FILE *out) 
 	if (parse_scenario (lines, nlines) != 0) { return (98); }
 	cfg->binary_sem = sem_binary;
 	vf_init (cfg);
-	vf_lockann_hook = &lockann;
+	vf_lockann_hook = &lockann; vf_victim_may_run_hook = &victim_may_run; vf_sem_sleep_hook = &sem_sleep; nfibers_total = nprogs;
 	vf_log_env ("tick %lld", (long long) START_NS);
 	{ /* register the once_sync slots of once.c */
 		char *base = (char *) vf_once_sync_base (); size_t st = vf_once_sync_stride (); int k;
